@@ -30,6 +30,8 @@ def judge(ctx, sc, o, cond, code, tid, later, sender=False):
     ctx.prop("callback_kind_is_table_entry", mine[0][0] == code,
              lambda: {"sig": f"{name}/{code}: callback {mine[0][0]}"})
     ctx.prop("callback_transaction_id", mine[0][1] == tid, lambda: {"sig": f"{name}/{code}: id {mine[0][1]}"})
+    ctx.prop("callback_reports_current_progress", mine[0][3] == o.progress0,
+             lambda: {"sig": f"{name}/{code}: progress in the callback differs from the handler's progress"})
     fin = [e for e in o.ind if e[0] == "finished"]
     if code == "ignore":
         ctx.prop("ignore_keeps_transaction_running", (not sc.rig.idle) and sc.rig.h.transaction_id == tid
